@@ -1,6 +1,7 @@
 import PromModel.Prelude.Line
 import PromModel.Num.F64
 import PromModel.Promql.RangeEval
+import PromModel.Promql.AggK
 /-
   Suite `promqlrange` (property C27).
   ops:  `cfg <lookback_ms>` | `ser <name> <labels|-> <t:bits,…|->` | `hser <name> <labels|-> <t:i,…|->`
@@ -22,13 +23,26 @@ import PromModel.Promql.RangeEval
           the two step results have the same number of elements and (except limitk) the same multiset of values,
           or (b) it contains sum/avg/stddev/stdvar/quantile over a non-selector operand, the label sets agree and
           every value pair is within 4 ulp (2^13 ulp when the aggregation is stddev/stdvar, whose final subtraction
-          amplifies the accumulation-order difference). Everything else is `kind=other`. A `kind=other` violation anywhere in
-          the case takes precedence over an order-sensitive one.
+          amplifies the accumulation-order difference). A range-vs-instant mismatch of an expression in which
+          `PreprocessExpr` skips an aggregation PARAMETER in a way that matters (`Q.paramSkipped`: the operand is
+          step invariant but the parameter is not, or the parameter contains an `@` modifier that is left
+          unresolved / unwrapped) is `kind=agg-param-not-preprocessed` (finding C27-F2); a range query that fails
+          although every instant query succeeds, over topk/bottomk/limitk with a non-literal parameter while the
+          case contains a value <= -2^63, is `kind=k-underflow-range-only` (finding C27-F3); such a range-only
+          failure of an expression with a subquery whose range is shorter than the step of its reader
+          (`Q.sparseSubq`: child steps outside every parent window are evaluated in range mode only) is
+          `kind=subquery-unneeded-step-error` (finding C27-F4). Everything else is
+          `kind=other`. A `kind=other` violation anywhere in the case takes precedence over the known kinds.
   model : for expressions of the core language (PromModel/Promql/RangeEval.lean) over finite float data:
           `rangeQuery` (the engine's strategy) for `rq`, `instantQuery` for `iq`/`oq`, over exact rationals; an
           observed result with the same label sets whose values are within 2^-40 relative of the model's is
           echoed (binary64 rounding of non-dyadic intermediate values such as `time()`), otherwise the model's
-          own rendering is printed. Everything outside the core language is echoed (judge only).
+          own rendering is printed. `topk/bottomk/limitk(<param>, <selector>)` with a per-step parameter
+          (number literals, `time()`, `scalar(<selector | count/sum/min/max of a selector>)`, + - * / % and
+          comparisons with `bool`, every intermediate value exactly representable) runs through the cursor
+          model of `rangeEvalAgg`/`aggregationK` (PromModel/Promql/AggK.lean: `rangeEvalAggK` for `rq`,
+          `instantK` for `iq`); an observed step is echoed when it is an admissible selection (same groups'
+          value multisets; for limitk the same series). Everything else is echoed (judge only).
 -/
 namespace Prom.RangeSuite
 open Prom.RangeEval
@@ -131,6 +145,117 @@ def Q.shiftEligible : Q → Bool
   | .aggP _ _ _ p e => p.shiftEligible && e.shiftEligible
   | .neg e => e.shiftEligible
   | _ => true
+
+/-! ### what `PreprocessExpr` does not look at: aggregation parameters (finding C27-F2) -/
+
+def atUnsafeFns : List String :=
+  ["days_in_month", "day_of_month", "day_of_week", "day_of_year", "end", "hour", "minute", "month", "year",
+   "predict_linear", "range", "start", "step", "time", "timestamp"]
+
+/-- `preprocessExprHelper`'s `isStepInvariant` (an aggregation is judged by its operand alone). -/
+def Q.stepInv : Q → Bool
+  | .sel _ _ _ a => a != "-"
+  | .msel _ _ _ a _ => a != "-"
+  | .subq _ _ _ a _ => a != "-"
+  | .num _ | .str _ => true
+  | .call0 fn => !atUnsafeFns.contains fn
+  | .call1 fn _ a => (!atUnsafeFns.contains fn || (fn == "timestamp" && a.isSel)) && a.stepInv
+  | .call2 fn _ a b => !atUnsafeFns.contains fn && a.stepInv && b.stepInv
+  | .call3 fn _ a b c => !atUnsafeFns.contains fn && a.stepInv && b.stepInv && c.stepInv
+  | .bin _ _ _ _ _ _ l r => l.stepInv && r.stepInv
+  | .agg _ _ _ e => e.stepInv
+  | .aggP _ _ _ _ e => e.stepInv
+  | .neg e => e.stepInv
+
+/-- Does the tree contain a selector / subquery with an `@` modifier satisfying `f`? -/
+def Q.anyAt (f : String → Bool) : Q → Bool
+  | .sel _ _ _ a => a != "-" && f a
+  | .msel _ _ _ a _ => a != "-" && f a
+  | .subq _ _ _ a e => (a != "-" && f a) || e.anyAt f
+  | .call1 _ _ a => a.anyAt f
+  | .call2 _ _ a b => a.anyAt f || b.anyAt f
+  | .call3 _ _ a b c => a.anyAt f || b.anyAt f || c.anyAt f
+  | .bin _ _ _ _ _ _ l r => l.anyAt f || r.anyAt f
+  | .agg _ _ _ e => e.anyAt f
+  | .aggP _ _ _ p e => p.anyAt f || e.anyAt f
+  | .neg e => e.anyAt f
+  | _ => false
+
+/-- The parameter `p` of an aggregation over `e` is mistreated by `PreprocessExpr`: with a step-invariant operand
+    the whole aggregation is evaluated once at the first step (wrong unless the parameter is invariant too and
+    does not say `@ end()`, which stays unresolved); otherwise the parameter is evaluated at every step without
+    ever having been preprocessed (`@ start()/end()` unresolved, `@ <t>` not wrapped: its offset is only right
+    at the first step). -/
+def paramMistreated (p e : Q) : Bool :=
+  if e.stepInv then !p.stepInv || p.anyAt (· == "end") else p.anyAt (fun _ => true)
+
+def Q.paramSkipped : Q → Bool
+  | .subq _ _ _ _ e => e.paramSkipped
+  | .call1 _ _ a => a.paramSkipped
+  | .call2 _ _ a b => a.paramSkipped || b.paramSkipped
+  | .call3 _ _ a b c => a.paramSkipped || b.paramSkipped || c.paramSkipped
+  | .bin _ _ _ _ _ _ l r => l.paramSkipped || r.paramSkipped
+  | .agg _ _ _ e => e.paramSkipped
+  | .aggP _ _ _ p e => paramMistreated p e || p.paramSkipped || e.paramSkipped
+  | .neg e => e.paramSkipped
+  | _ => false
+
+/-- Every aggregation parameter is a number / string literal (what the suite generated before parameters
+    were varied): such an expression is never attributed to C27-F2 (`PromProps.C27.paramSkipped_of_literal`). -/
+def Q.paramsLiteral : Q → Bool
+  | .subq _ _ _ _ e => e.paramsLiteral
+  | .call1 _ _ a => a.paramsLiteral
+  | .call2 _ _ a b => a.paramsLiteral && b.paramsLiteral
+  | .call3 _ _ a b c => a.paramsLiteral && b.paramsLiteral && c.paramsLiteral
+  | .bin _ _ _ _ _ _ l r => l.paramsLiteral && r.paramsLiteral
+  | .agg _ _ _ e => e.paramsLiteral
+  | .aggP _ _ _ (.num _) e => e.paramsLiteral
+  | .aggP _ _ _ (.str _) e => e.paramsLiteral
+  | .aggP .. => false
+  | .neg e => e.paramsLiteral
+  | _ => true
+
+/-- topk / bottomk / limitk with a parameter that is not a literal. -/
+def Q.hasVaryingK : Q → Bool
+  | .subq _ _ _ _ e => e.hasVaryingK
+  | .call1 _ _ a => a.hasVaryingK
+  | .call2 _ _ a b => a.hasVaryingK || b.hasVaryingK
+  | .call3 _ _ a b c => a.hasVaryingK || b.hasVaryingK || c.hasVaryingK
+  | .bin _ _ _ _ _ _ l r => l.hasVaryingK || r.hasVaryingK
+  | .agg _ _ _ e => e.hasVaryingK
+  | .aggP op _ _ p e =>
+    (kSelOps.contains op && (match p with | .num _ => false | _ => true)) || p.hasVaryingK || e.hasVaryingK
+  | .neg e => e.hasVaryingK
+  | _ => false
+
+/-- A binary64 value `<= -2^63` (`-Inf` included): `rangeEvalAgg`'s "underflows int64". -/
+def hugeNegBits (b : Nat) : Bool := 0xC3E0000000000000 ≤ b && b ≤ 0xFFF0000000000000
+
+def Q.hasHugeNeg : Q → Bool
+  | .num b => hugeNegBits b
+  | .subq _ _ _ _ e => e.hasHugeNeg
+  | .call1 _ _ a => a.hasHugeNeg
+  | .call2 _ _ a b => a.hasHugeNeg || b.hasHugeNeg
+  | .call3 _ _ a b c => a.hasHugeNeg || b.hasHugeNeg || c.hasHugeNeg
+  | .bin _ _ _ _ _ _ l r => l.hasHugeNeg || r.hasHugeNeg
+  | .agg _ _ _ e => e.hasHugeNeg
+  | .aggP _ _ _ p e => p.hasHugeNeg || e.hasHugeNeg
+  | .neg e => e.hasHugeNeg
+  | _ => false
+
+/-- A subquery whose range is shorter than the step of the evaluation that reads it (`outer`: the query's step, or
+    the enclosing subquery's): in range mode the child runs over the whole aligned grid, including child steps
+    that lie in no parent window and that no instant query ever evaluates (finding C27-F4). -/
+def Q.sparseSubq (outer : Int) : Q → Bool
+  | .subq range step _ _ e => range < outer || e.sparseSubq (if step = 0 then 15000 else step)
+  | .call1 _ _ a => a.sparseSubq outer
+  | .call2 _ _ a b => a.sparseSubq outer || b.sparseSubq outer
+  | .call3 _ _ a b c => a.sparseSubq outer || b.sparseSubq outer || c.sparseSubq outer
+  | .bin _ _ _ _ _ _ l r => l.sparseSubq outer || r.sparseSubq outer
+  | .agg _ _ _ e => e.sparseSubq outer
+  | .aggP _ _ _ p e => p.sparseSubq outer || e.sparseSubq outer
+  | .neg e => e.sparseSubq outer
+  | _ => false
 
 /-! ### core-language conversion -/
 
@@ -272,7 +397,9 @@ def withinUlp (n : Nat) (a b : String) : Bool :=
     a.length = 16 && b.length = 16 && !isNaNBits x && !isNaNBits y && (ordBits x - ordBits y).natAbs ≤ n
   | _, _ => false
 
-def normVal (v : String) : String := if valIsNaN v then "nan" else v
+/-- Values as the k-selection compares them: all NaNs alike, and `-0 = +0` (a tie between the two is a tie). -/
+def normVal (v : String) : String :=
+  if valIsNaN v then "nan" else if v = "8000000000000000" then "0000000000000000" else v
 
 def sortedVals (x : Step) : List String := (x.map fun e => normVal e.2).mergeSort (fun a b => a ≤ b)
 
@@ -297,6 +424,8 @@ structure RQ where
   start : Int
   end_ : Int
   step : Int
+  /-- a sample value `<= -2^63` has been stored in this case (finding C27-F3) -/
+  hugeNeg : Bool := false
   res : List Res
   /-- instant results seen so far: (i, variants) -/
   iqs : List (Nat × List Res) := []
@@ -313,18 +442,22 @@ def Res.isErr : Res → Bool
   | .err _ => true
   | _ => false
 
+/-- `ri`: a range-vs-instant comparison (the only one finding C27-F2 can explain). -/
+def otherKind (q : Q) (ri : Bool) : String := if ri && q.paramSkipped then "agg-param-not-preprocessed" else "other"
+
 /-- Compare two results at one step; `none` = equal. -/
-def diffAt (q : Q) (a b : Res) (ia ib : Nat) : Option String :=
+def diffAt (q : Q) (a b : Res) (ia ib : Nat) (ri : Bool := false) : Option String :=
   match a, b with
   | .bad, _ | _, .bad => some "kind=other detail=unparsable"
   | .err _, .err _ => none
-  | .err c, _ => some s!"kind=other detail=error-vs-value err={c}"
-  | _, .err c => some s!"kind=other detail=value-vs-error err={c}"
+  | .err c, _ => some s!"kind={otherKind q ri} detail=error-vs-value err={c}"
+  | _, .err c => some s!"kind={otherKind q ri} detail=value-vs-error err={c}"
   | .steps sa, .steps sb =>
     match sa[ia]?, sb[ib]? with
     | some x, some y =>
       if x.hasStale || y.hasStale then some "kind=other detail=stale-marker-in-output"
       else if stepEq x y then none
+      else if ri && q.paramSkipped then some "kind=agg-param-not-preprocessed detail=step-differs"
       else some s!"kind={classify q x y} detail=step-differs"
     | _, _ => some "kind=other detail=missing-step"
 
@@ -349,7 +482,12 @@ def rqSelfCheck (r : RQ) : List String :=
   let errOnly : List String :=
     if r.res.all (·.isErr) && !r.res.isEmpty && (List.range n).all (fun i => r.iqs.any fun p => p.1 = i)
         && r.iqs.all (fun p => p.2.all fun x => !x.isErr) then
-      [s!"violation range-ne-instant kind=other detail=range-error-only expr: {r.describe}"]
+      let kind :=
+        if r.q.paramSkipped then "agg-param-not-preprocessed"
+        else if r.q.hasVaryingK && (r.hugeNeg || r.q.hasHugeNeg) then "k-underflow-range-only"
+        else if r.q.sparseSubq r.step then "subquery-unneeded-step-error"
+        else "other"
+      [s!"violation range-ne-instant kind={kind} detail=range-error-only expr: {r.describe}"]
     else []
   shape ++ varia ++ errOnly
 
@@ -357,7 +495,7 @@ def judgeIq (r : RQ) (i : Nat) (iv : List Res) : List String :=
   let t := r.start + (i : Int) * r.step
   -- a range query fails as a whole when any step fails: range-error vs instant-value is judged by `rqSelfCheck`
   (r.res.flatMap fun a => iv.filterMap fun b =>
-      if a.isErr && !b.isErr then none else diffAt r.q a b i 0).head?.toList.map fun d =>
+      if a.isErr && !b.isErr then none else diffAt r.q a b i 0 true).head?.toList.map fun d =>
     s!"violation range-ne-instant {d} cmp=range-vs-instant step={i} t={t} expr: {r.describe}"
 
 def judgeOq (r : RQ) (i : Nat) (d : Int) (ov : List Res) : List String :=
@@ -368,43 +506,64 @@ def judgeOq (r : RQ) (i : Nat) (d : Int) (ov : List Res) : List String :=
     (iv.flatMap fun a => ov.filterMap fun b => diffAt r.q a b 0 0).head?.toList.map fun x =>
       s!"violation offset-shift {x} step={i} d={d} expr: {r.describe}"
 
-def judgeGo : Option RQ → List String → List String → List String → List String
+def samplesHugeNeg (s : String) : Bool :=
+  s != "-" && (s.splitOn ",").any fun p =>
+    match p.splitOn ":" with
+    | [_, b] => (natOfHex? b).any hugeNegBits
+    | _ => false
+
+def judgeGo (huge : Bool) : Option RQ → List String → List String → List String → List String
   | cur, op :: ops, out :: outs, acc =>
     let toks := stripObs (toks op)
     match toks with
+    | ["ser", _, _, smp] =>
+      if samplesHugeNeg smp then judgeGo true (cur.map fun r => { r with hugeNeg := true }) ops outs acc
+      else judgeGo huge cur ops outs acc
     | "rq" :: s :: e :: st :: rest =>
       let fin := match cur with | some r => rqSelfCheck r | none => []
       match s.toInt?, e.toInt?, st.toInt?, parseExpr? rest with
       | some s, some e, some st, some q =>
-        if st ≤ 0 then judgeGo none ops outs (acc ++ fin)
-        else judgeGo (some { q := q, toks := toks, start := s, end_ := e, step := st, res := parseVariants out }) ops outs (acc ++ fin)
-      | _, _, _, _ => judgeGo none ops outs (acc ++ fin)
+        if st ≤ 0 then judgeGo huge none ops outs (acc ++ fin)
+        else judgeGo huge (some { q := q, toks := toks, start := s, end_ := e, step := st, hugeNeg := huge, res := parseVariants out }) ops outs (acc ++ fin)
+      | _, _, _, _ => judgeGo huge none ops outs (acc ++ fin)
     | ["iq", i] =>
       match cur, i.toNat? with
       | some r, some i =>
         -- an index outside the range query's steps (possible after shrinking dropped an `rq` line) is not judged
-        if i ≥ r.nSteps || out = "bad-op" then judgeGo cur ops outs acc else
+        if i ≥ r.nSteps || out = "bad-op" then judgeGo huge cur ops outs acc else
         let iv := parseVariants out
-        judgeGo (some { r with iqs := r.iqs ++ [(i, iv)] }) ops outs (acc ++ judgeIq r i iv)
-      | _, _ => judgeGo cur ops outs acc
+        judgeGo huge (some { r with iqs := r.iqs ++ [(i, iv)] }) ops outs (acc ++ judgeIq r i iv)
+      | _, _ => judgeGo huge cur ops outs acc
     | ["oq", i, d] =>
       match cur, i.toNat?, d.toInt? with
       | some r, some i, some d =>
-        if i ≥ r.nSteps || out = "bad-op" then judgeGo cur ops outs acc
-        else judgeGo cur ops outs (acc ++ judgeOq r i d (parseVariants out))
-      | _, _, _ => judgeGo cur ops outs acc
-    | _ => judgeGo cur ops outs acc
+        if i ≥ r.nSteps || out = "bad-op" then judgeGo huge cur ops outs acc
+        else judgeGo huge cur ops outs (acc ++ judgeOq r i d (parseVariants out))
+      | _, _, _ => judgeGo huge cur ops outs acc
+    | _ => judgeGo huge cur ops outs acc
   | cur, _, _, acc => acc ++ (match cur with | some r => rqSelfCheck r | none => [])
 
-def isKnownKind (v : String) : Bool := (v.splitOn " kind=order-sensitive-aggregation ").length > 1
+def knownKinds : List String :=
+  ["order-sensitive-aggregation", "agg-param-not-preprocessed", "k-underflow-range-only", "subquery-unneeded-step-error"]
+
+def isKnownKind (v : String) : Bool := knownKinds.any fun k => (v.splitOn s!" kind={k} ").length > 1
 
 def judge (ops outs : List String) : String :=
-  let vs := judgeGo none ops outs []
+  let vs := judgeGo false none ops outs []
   match vs.find? (fun v => !isKnownKind v) with
   | some v => v
   | none => vs.head?.getD "ok"
 
 /-! ### model -/
+
+/-- `topk/bottomk/limitk(<p>, <selector>)` with a per-step parameter (PromModel/Promql/AggK.lean). -/
+structure KQ where
+  op : AggK.KOp
+  wo : Bool
+  ls : List String
+  p : Q
+  sel : Sel
+  deriving Inhabited
 
 structure MState where
   lookback : Int := 300000
@@ -412,6 +571,7 @@ structure MState where
   /-- false once a series carries NaN/±Inf or native histograms: outside the rational model -/
   coreData : Bool := true
   cur : Option (Expr × Int × Int × Int) := none
+  curK : Option (KQ × Int × Int × Int) := none
 
 def parseLabels? (name ls : String) : Option Labels :=
   if ls = "-" then some [(nameLabel, name)] else do
@@ -472,6 +632,140 @@ def answer (obs : Option String) (vals : List Value) : String :=
 
 def defStep : Int := 15000
 
+/-! ### k-selection with a per-step parameter -/
+
+def kOp? : String → Option AggK.KOp
+  | "topk" => some .topk
+  | "bottomk" => some .bottomk
+  | "limitk" => some .limitk
+  | _ => none
+
+def toKQ? : Q → Option KQ
+  | .aggP op grp gl p (.sel n ms off a) => do
+    let o ← kOp? op
+    let at_ ← parseAt? a
+    -- an `@` on the operand makes the whole aggregation step invariant for `PreprocessExpr` (finding C27-F2)
+    if at_.isSet then none
+    else pure ⟨o, grp = "wo", if grp = "-" then [] else labelList gl, p, ⟨n, ← parseMatchers? ms, off, at_⟩⟩
+  | _ => none
+
+/-- exactly representable in binary64: one correctly rounded float operation returns exactly this value -/
+def exact64 (q : Rat) : Bool := F64.f64ToRat (F64.roundBits q) == some q
+
+def exactOr (q : Rat) : Option (Option Rat) := if exact64 q then some (some q) else none
+
+/-- `math.Mod` on exact operands (the result takes the sign of the dividend and is exact). -/
+def fmodR (a b : Rat) : Rat := a - b * (AggK.truncR (a / b) : Rat)
+
+/-- The operand of `scalar(·)` in a modelled parameter: a selector without `@`, or count/sum/min/max over one. -/
+def scalarOperand? : Q → Option Expr
+  | .sel n ms off "-" => do pure (.sel ⟨n, ← parseMatchers? ms, off, .none⟩)
+  | .agg op "-" _ (.sel n ms off "-") => do
+    pure (.agg (← aggOp? op) false [] (.sel ⟨n, ← parseMatchers? ms, off, .none⟩))
+  | _ => none
+
+/-- The parameter's value at `t`: `none` = outside the modelled fragment (or float rounding would matter),
+    `some none` = NaN. -/
+def paramAt (cfg : Cfg) (env : Env) : Q → Int → Option (Option Rat)
+  | .num b, _ =>
+    match F64.decode b with
+    | .fin q => some (some q)
+    | .nan => some none
+    | _ => none
+  | .call0 "time", t => exactOr ((t : Rat) / 1000)
+  | .call1 "scalar" _ v, t => do
+    let e ← scalarOperand? v
+    match evalAt cfg env e t with
+    | .vector [x] => exactOr x.v
+    | .vector _ => some none
+    | .scalar _ => none
+  | .bin op b "-" _ "11" _ l r, t => do
+    let x ← paramAt cfg env l t
+    let y ← paramAt cfg env r t
+    match x, y with
+    | some a, some c =>
+      if op = "+" then exactOr (a + c)
+      else if op = "-" then exactOr (a - c)
+      else if op = "*" then exactOr (a * c)
+      else if op = "/" then (if c = 0 then none else exactOr (a / c))
+      else if op = "%" then (if c = 0 then some none else exactOr (fmodR a c))
+      else if b then (binOp? op).bind fun o => if o.isCmp then some (some (b2r (o.cmp a c))) else none
+      else none
+    | _, _ => if ["+", "-", "*", "/", "%"].contains op then some none else none
+  | _, _ => none
+
+def kMatrix (cfg : Cfg) (env : Env) (s : Sel) (ts : List Int) : List AggK.In :=
+  (selSeries env s).filterMap fun ser =>
+    let pts := ts.filterMap fun t =>
+      (instantSample cfg.lookback ser.samples (refTime cfg s.atm s.off t)).map fun v => (⟨t, v⟩ : AggK.Pt)
+    if pts.isEmpty then none else some ⟨ser.lbls, pts⟩
+
+def two63 : Rat := 9223372036854775808
+
+inductive KRes where
+  | unmodelled
+  | err
+  | steps (out : List Vector) (inp : List Vector)
+
+/-- `rangeEvalAgg` over all steps (`newFParams` + the checks before the step loop + the cursor strategy). -/
+def kRange (lookback : Int) (env : Env) (k : KQ) (s e p : Int) : KRes :=
+  let cfg : Cfg := ⟨lookback, defStep, s, e⟩
+  let ts := stepTimes s e p
+  match ts.mapM fun t => paramAt cfg env k.p t with
+  | none => .unmodelled
+  | some ps =>
+    if ps.any (·.isNone) then .err else
+    let vals := ps.filterMap id
+    let ss := kMatrix cfg env k.sel ts
+    let steps := ts.zip vals
+    if AggK.allNil k.op steps then .steps (ts.map fun _ => []) (ts.map fun _ => [])
+    else if vals.any (fun v => v ≤ -two63 || two63 ≤ v) then .err
+    else .steps (AggK.rangeEvalAggK AggK.stablePick k.op k.wo k.ls e steps ss) (ts.map fun t => AggK.vecAt t ss)
+
+/-- An instant query at `t`. -/
+def kInstant (lookback : Int) (env : Env) (k : KQ) (t : Int) : KRes :=
+  let cfg : Cfg := ⟨lookback, defStep, t, t⟩
+  match paramAt cfg env k.p t with
+  | none => .unmodelled
+  | some none => .err
+  | some (some v) =>
+    let vec := AggK.vecAt t (kMatrix cfg env k.sel [t])
+    if v < 1 then .steps [[]] [vec]
+    else if two63 ≤ v then .err
+    else .steps [AggK.instantK AggK.stablePick k.op v k.wo k.ls vec] [vec]
+
+def groupStr (k : KQ) (l : Labels) : String := lblStr (groupKey k.wo k.ls l)
+
+/-- Is the observed step an admissible selection? Every observed sample is a sample of the step's input, no
+    series twice, and per group the observed values are the model's values as a multiset (topk / bottomk: which
+    of several tied samples the heap keeps is not determined); limitk leaves no freedom. -/
+def admissible (k : KQ) (obs : Step) (out inp : Vector) : Bool :=
+  let find (o : String × String) : Option Elem := inp.find? fun e => lblStr e.lbls = o.1 && closeTo o.2 e.v
+  obs.length = out.length && (obs.map (·.1)).eraseDups.length = obs.length &&
+  match obs.mapM find with
+  | none => false
+  | some es =>
+    if k.op == .limitk then
+      (es.map fun e => lblStr e.lbls).mergeSort (fun a b => a ≤ b) = (out.map fun e => lblStr e.lbls).mergeSort (fun a b => a ≤ b)
+    else
+      ((inp.map fun e => groupStr k e.lbls).eraseDups).all fun g =>
+        let vs (v : Vector) : List Rat := ((v.filter fun e => groupStr k e.lbls = g).map (·.v)).mergeSort (fun a b => a ≤ b)
+        vs es == vs out
+
+def answerK (k : KQ) (obs : Option String) (r : KRes) (echo : String) : String :=
+  match r with
+  | .unmodelled => echo
+  | .err => "E:other"
+  | .steps out inp =>
+    let own := "|".intercalate (out.map fun v => renderElems (valueElems (.vector v)))
+    match obs with
+    | none => own
+    | some o =>
+      match parseVariants o with
+      | [.steps st] =>
+        if st.length = out.length && ((st.zip (out.zip inp)).all fun x => admissible k x.1 x.2.1 x.2.2) then o else own
+      | _ => own
+
 def modelStep (st : MState) (line : String) : MState × String :=
   let all := toks line
   let obs := obsOf all
@@ -494,14 +788,20 @@ def modelStep (st : MState) (line : String) : MState × String :=
     | some s, some e, some p, some q =>
       match (if st.coreData && p > 0 then toCore q else none) with
       | some ex =>
-        ({ st with cur := some (ex, s, e, p) }, answer obs (rangeQuery id st.lookback defStep st.env ex s e p))
-      | none => ({ st with cur := none }, echo)
-    | _, _, _, _ => ({ st with cur := none }, "bad-op")
+        ({ st with cur := some (ex, s, e, p), curK := none }, answer obs (rangeQuery id st.lookback defStep st.env ex s e p))
+      | none =>
+        match (if st.coreData && p > 0 && e ≥ s then toKQ? q else none) with
+        | some k =>
+          ({ st with cur := none, curK := some (k, s, e, p) }, answerK k obs (kRange st.lookback st.env k s e p) echo)
+        | none => ({ st with cur := none, curK := none }, echo)
+    | _, _, _, _ => ({ st with cur := none, curK := none }, "bad-op")
   | ["iq", i] =>
-    match st.cur, i.toNat? with
-    | some (ex, s, e, p), some i =>
+    match st.cur, st.curK, i.toNat? with
+    | some (ex, s, e, p), _, some i =>
       (st, answer obs [instantQuery st.lookback defStep st.env (substAt s e ex) (s + (i : Int) * p)])
-    | _, _ => (st, echo)
+    | none, some (k, s, _, p), some i =>
+      (st, answerK k obs (kInstant st.lookback st.env k (s + (i : Int) * p)) echo)
+    | _, _, _ => (st, echo)
   | ["oq", i, d] =>
     match st.cur, i.toNat?, d.toInt? with
     | some (ex, s, e, p), some i, some d =>
